@@ -119,6 +119,19 @@ func randGFF(r *rand.Rand, L int) *gffRecord {
 		}
 		rec.Feats = append(rec.Feats, f)
 	}
+	// features are rows of their own even when they carry the same ID, Name or Parent value
+	if len(rec.Feats) >= 2 && r.Intn(4) == 0 {
+		for n := 1 + r.Intn(3); n > 0; n-- {
+			a, b := r.Intn(len(rec.Feats)), r.Intn(len(rec.Feats))
+			key := []string{"ID", "ID", "Name", "Parent"}[r.Intn(4)]
+			if v, ok := rec.Feats[a].Attrs[key]; ok && a != b {
+				rec.Feats[b].Attrs[key] = v
+			} else if a != b {
+				rec.Feats[a].Attrs[key] = "shared_" + fmt.Sprint(n)
+				rec.Feats[b].Attrs[key] = "shared_" + fmt.Sprint(n)
+			}
+		}
+	}
 	return rec
 }
 
